@@ -141,7 +141,7 @@ def sbi_requires(s):
 
 
 def sbi_modifies(ctx, s):
-    n = V.smax(0, s.num)
+    n = lm.nonneg_dim(s.num)
     idx = arange_arr(n)
     s.self.fields.update(indices=idx, train_indices=idx, val_indices=np.asarray([], dtype=int), shuffle=False, _rng=None,
                          batch_size=s.batch_size if s.batch_size is not None else s.num)
@@ -169,7 +169,7 @@ def batch_k(train, k, B, n):
     kB = lift(k) * lift(B)
     ln = zmax(0, zmin(B, lift(n) - kB))
     tf, tmem, tinv = train.fn, train.mem, train.inv
-    return npm.index_array(Sym(ln), lambda i: tf(kB + i),
+    return npm.index_array(Sym(ln), lambda i: tf(z3.simplify(kB + i)),
                            lambda v: z3.And(tmem(v), tinv(v) >= kB, tinv(v) < kB + ln), lambda v: tinv(v) - kB, name="batch")
 
 
@@ -937,8 +937,598 @@ C_SHIFT = Contract(
 )
 
 CONTRACTS = [C_SB_INIT, C_SB_ITER, C_SET_MEASURED, C_SET_FITTED, C_CALC, C_FITBG, C_SHIFT, C_GETCOM, C_FITORIGIN, C_SIC_VEC, C_SIC_LOOP]
-LEMMAS = []
-BOUNDED = []
-TRUSTED = []
-ASSUMPTIONS = []
-EXPLANATION = ""
+
+# ------------------------------------------------------------------------------------------------
+# property-level lemmas (from the contract statements alone)
+# ------------------------------------------------------------------------------------------------
+
+
+def _D():
+    return z3.Function("D", z3.IntSort(), z3.IntSort(), z3.IntSort(), z3.IntSort(), z3.RealSort())
+
+
+def lemma_paths_agree(ctx):
+    """vectorised == looped, and origin model == dataset model, for the same 4-D data D (no mask):
+    the posts of calculate_origin and of both views of _set_intensities_com name the SAME term for pattern (r, c)."""
+    D = _D()
+    Rx, Ry, H, W, r, c, p = I("Rx"), I("Ry"), I("H"), I("W"), I("r"), I("c"), I("p")
+    Dfn = lambda a, b, i, j: Sym(D(a, b, i, j))
+    vec_r, vec_c, loop_r, loop_c, om0, om1 = Rl("vec_r"), Rl("vec_c"), Rl("loop_r"), Rl("loop_c"), Rl("om0"), Rl("om1")
+    dims = [Rx >= 1, Ry >= 1, H >= 1, W >= 1, r >= 0, r < Rx, c >= 0, c < Ry]
+    g = NS(Ifn=Dfn, Mfn=None, Qr=Sym(H), Qc=Sym(W))
+    sr, sc = sic_spec(g, r, c)                       # post of _set_intensities_com at scan position (r, c)
+    pr, pc = com_spec(pattern_of(Dfn, (Sym(Rx), Sym(Ry)), p), Sym(H), Sym(W))  # post of calculate_origin at pattern p
+    return [
+        ("vectorised=looped", dims + [vec_r == sr, vec_c == sc, loop_r == sr, loop_c == sc], AND(vec_r == loop_r, vec_c == loop_c)),
+        ("row-major-pattern-number", dims + [p == r * Ry + c], AND(p >= 0, p < Rx * Ry, p / Ry == r, p % Ry == c)),
+        ("origin-model=dataset-model", dims + [p == r * Ry + c, p / Ry == r, p % Ry == c, om0 == pr, om1 == pc, vec_r == sr, vec_c == sc], AND(om0 == vec_r, om1 == vec_c)),
+    ]
+
+
+def lemma_batch_independence(ctx):
+    """calculate_origin's post does not mention the batch size: two runs with batch sizes B1, B2 agree on every pattern."""
+    D = _D()
+    H, W, p, Ry = I("H"), I("W"), I("p"), I("Ry")
+    Dfn = lambda a, b, i, j: Sym(D(a, b, i, j))
+    pr, pc = com_spec(pattern_of(Dfn, (Sym(I("Rx")), Sym(Ry)), p), Sym(H), Sym(W))
+    a0, a1, b0, b1 = Rl("runB1_row"), Rl("runB1_col"), Rl("runB2_row"), Rl("runB2_col")
+    return [("same-origin-for-every-batch-size", [a0 == pr, a1 == pc, b0 == pr, b1 == pc], AND(a0 == b0, a1 == b1))]
+
+
+def lemma_roll(ctx):
+    """The post of shift_origin_to is torch.roll by (-s_row, -s_col) (trusted roll model), and it moves the pixel at the
+    fitted origin to the target coordinate (0, 0)."""
+    H, W, y, x, sy, sx = I("H"), I("W"), I("y"), I("x"), I("s_row"), I("s_col")
+    inp = z3.Function("inp", z3.IntSort(), z3.IntSort(), z3.RealSort())
+    out = z3.Function("out", z3.IntSort(), z3.IntSort(), z3.RealSort())
+    src = SymArr((Sym(H), Sym(W)), lambda i, j: Sym(inp(i, j)), "real")
+    reg = make_registry()
+    rolled = reg.models[torch.roll](None, src, (Sym(-sy), Sym(-sx)), (0, 1))
+    dims = [H >= 2, W >= 2, y >= 0, y < H, x >= 0, x < W]
+    post = out(y, x) == inp((y + sy) % H, (x + sx) % W)
+    post00 = out(0, 0) == inp((0 + sy) % H, (0 + sx) % W)
+    return [
+        ("post=torch.roll(input,(-s_row,-s_col))", dims + [post], out(y, x) == lift(rolled.fn(y, x))),
+        ("origin-pixel-lands-on-the-corner", dims + [post00, sy >= 0, sy < H, sx >= 0, sx < W], out(0, 0) == inp(sy, sx)),
+        ("wrapped-index-in-range", dims, AND((y + sy) % H >= 0, (y + sy) % H < H, (x + sx) % W >= 0, (x + sx) % W < W)),
+    ]
+
+
+LEMMAS = [
+    Lemma("paths-and-models-agree", lemma_paths_agree, uses=["_set_intensities_com", "calculate_origin"]),
+    Lemma("batch-size-independence", lemma_batch_independence, uses=["calculate_origin"]),
+    Lemma("integer-shift-is-circular-roll", lemma_roll, uses=["shift_origin_to"]),
+]
+
+# ------------------------------------------------------------------------------------------------
+# run-time oracles: the same statements evaluated on the REAL functions (replay of counter-models, bounded stand-ins)
+# ------------------------------------------------------------------------------------------------
+
+
+def _com64(a):
+    a = np.asarray(a, dtype=np.float64)
+    H, W = a.shape[-2:]
+    i, j = np.meshgrid(np.arange(H), np.arange(W), indexing="ij")
+    s = a.sum((-2, -1))
+    return (a * i).sum((-2, -1)) / s, (a * j).sum((-2, -1)) / s
+
+
+def _data(shape, seed):
+    """positive, asymmetric patterns (a bright blob at a pattern-dependent off-centre position on a positive background)"""
+    rng = np.random.default_rng(seed)
+    H, W = shape[-2:]
+    lead = shape[:-2]
+    i, j = np.meshgrid(np.arange(H), np.arange(W), indexing="ij")
+    out = np.empty(shape, dtype=np.float64)
+    for idx in np.ndindex(*lead):
+        ci, cj = rng.uniform(0, H - 1), rng.uniform(0, W - 1)
+        out[idx] = 0.05 + rng.uniform(0.5, 2.0) * np.exp(-((i - ci) ** 2 / (0.6 + 0.1 * H) + (j - cj) ** 2 / (0.9 + 0.05 * W))) + 0.02 * rng.random((H, W))
+    return out
+
+
+def _dataset(arr):
+    from quantem.core.datastructures import Dataset3d, Dataset4dstem
+
+    arr = np.asarray(arr, dtype=np.float32)
+    return (Dataset4dstem if arr.ndim == 4 else Dataset3d).from_array(arr)
+
+
+def _origin_model(arr):
+    from quantem.diffractive_imaging.origin_models import CenterOfMassOriginModel
+
+    return CenterOfMassOriginModel.from_dataset(_dataset(arr), device="cpu")
+
+
+def _res(problems, expected):
+    return dict(violated=bool(problems), observed="; ".join(problems[:3]) or "ok", expected=expected)
+
+
+def _guard(f):
+    def run(inp):
+        import warnings
+
+        try:
+            with warnings.catch_warnings():
+                warnings.simplefilter("ignore")
+                return f(inp)
+        except Exception as e:  # an exception on an in-domain input is itself a violation of the statement
+            k = f"{len(inp['shape'])}-D input: raises {type(e).__name__}" if f.__name__ == "rt_getcom" else f"raises {type(e).__name__}"
+            return dict(violated=True, observed=f"raised {type(e).__name__}: {str(e)[:160]}", expected="no exception on in-domain input", klass=k)
+    run.__name__ = f.__name__
+    return run
+
+
+@_guard
+def rt_calc(inp):
+    shape = tuple(inp["shape"])
+    arr = _data(shape, inp["seed"]).astype(np.float32)
+    m = _origin_model(arr)
+    before = m.tensor.clone()
+    ret = m.calculate_origin(max_batch_size=inp.get("max_batch_size"))
+    got = m.origin_measured.numpy().astype(np.float64)
+    er, ec = _com64(arr.reshape((-1,) + shape[-2:]))
+    problems = []
+    if ret is not m:
+        problems.append("does not return self")
+    if got.shape != (er.size, 2):
+        problems.append(f"origin_measured shape {got.shape} != ({er.size}, 2)")
+    else:
+        d = max(np.abs(got[:, 0] - er).max(), np.abs(got[:, 1] - ec).max())
+        if not d <= 2e-3:
+            k = int(np.argmax(np.abs(got[:, 0] - er) + np.abs(got[:, 1] - ec)))
+            problems.append(f"pattern {k}: origin_measured={got[k].tolist()} but (sum I*row/sum I, sum I*col/sum I)=({er[k]:.4f}, {ec[k]:.4f})")
+    if not bool((m.tensor == before).all()):
+        problems.append("input tensor was modified")
+    return _res(problems, "origin_measured[p] = (sum I*row / sum I, sum I*col / sum I) for every pattern and every batch size; input untouched")
+
+
+def fam_calc(tier="quick", seed=0):
+    shapes = [(2, 3, 4, 5), (3, 2, 5, 3), (1, 4, 3, 6), (5, 3, 4), (7, 2, 3)] + ([(4, 5, 7, 6), (6, 8, 5)] if tier == "thorough" else [])
+    for sh in shapes:
+        n = int(np.prod(sh[:-2]))
+        for b in [None] + sorted({1, 2, 3, n - 1, n, n + 2} - {0}):
+            yield dict(shape=list(sh), max_batch_size=b, seed=seed + n)
+
+
+def _raster(gpts, roi):
+    """A PtychographyDatasetRaster shell with just the state `_set_intensities_com` reads (no preprocessing is run)."""
+    from types import SimpleNamespace
+    from quantem.diffractive_imaging.dataset_models import PtychographyDatasetRaster
+
+    o = PtychographyDatasetRaster.__new__(PtychographyDatasetRaster)
+    torch.nn.Module.__init__(o)
+    o._verbose = 0
+    o._gpts = np.array(gpts)
+    o._dset = SimpleNamespace(shape=(int(np.prod(gpts)),) + tuple(roi))
+    return o
+
+
+def _mask(kind, H, W, seed):
+    if kind == "none":
+        return None
+    rng = np.random.default_rng(seed + 5)
+    if kind == "ones":
+        return np.ones((H, W), dtype=np.float32)
+    if kind == "half":
+        m = np.ones((H, W), dtype=np.float32)
+        m[:, W // 2:] = 0.0
+        m[0, 0] = 1.0
+        return m
+    return (0.25 + rng.random((H, W))).astype(np.float32)
+
+
+@_guard
+def rt_sic(inp):
+    shape = tuple(inp["shape"])
+    Rr, Rc, Qr, Qc = shape
+    arr = _data(shape, inp["seed"]).astype(np.float32)
+    mask = _mask(inp["mask"], Qr, Qc, inp["seed"])
+    fit = inp["fit_function"]
+    o = _raster((Rr, Rc), (Qr, Qc))
+    a_in, m_in = arr.copy(), None if mask is None else mask.copy()
+    o._set_intensities_com(a_in, dp_mask=m_in, fit_function=fit, vectorized_calculation=inp["vectorized"])
+    eff = arr.astype(np.float64) * (1.0 if mask is None else mask.astype(np.float64))
+    er, ec = _com64(eff)
+    cm, cf = np.asarray(o.com_measured, dtype=np.float64), np.asarray(o.com_fit, dtype=np.float64)
+    problems = []
+    if cm.shape != (2, Rr, Rc):
+        problems.append(f"com_measured shape {cm.shape}")
+    else:
+        d0, d1 = np.abs(cm[0] - er).max(), np.abs(cm[1] - ec).max()
+        if not (d0 <= 2e-3 and d1 <= 2e-3):
+            k = np.unravel_index(int(np.argmax(np.abs(cm[0] - er) + np.abs(cm[1] - ec))), (Rr, Rc))
+            problems.append(f"scan position {tuple(int(v) for v in k)}: com_measured=({cm[0][k]:.4f}, {cm[1][k]:.4f}) but (sum I*row/sum I, sum I*col/sum I)=({er[k]:.4f}, {ec[k]:.4f})")
+    if not np.array_equal(a_in, arr):
+        problems.append(f"caller's intensities array was modified in place (max change {np.abs(a_in - arr).max():.3g})")
+    if mask is not None and not np.array_equal(m_in, mask):
+        problems.append("caller's mask was modified in place")
+    if cm.shape == (2, Rr, Rc) and cf.shape == (2, Rr, Rc):
+        if fit == "none" and not np.allclose(cf, cm):
+            problems.append("fit_function='none': com_fit != com_measured")
+        if fit == "no_shift" and not (np.allclose(cf[0], Qr / 2) and np.allclose(cf[1], Qc / 2)):
+            problems.append("fit_function='no_shift': com_fit != detector centre")
+        if fit == "constant" and not (np.allclose(cf[0], cm[0].mean(), atol=1e-4) and np.allclose(cf[1], cm[1].mean(), atol=1e-4)):
+            problems.append("fit_function='constant': com_fit != mean of com_measured")
+    elif cf.shape != (2, Rr, Rc):
+        problems.append(f"com_fit shape {cf.shape}")
+    res = _res(problems, "com_measured = (sum I*row/sum I, sum I*col/sum I) of the masked pattern on both code paths; caller's arrays untouched; com_fit per fit_function")
+    # failure class (for narrow known-finding matching): what exactly is wrong
+    flags = []
+    if cm.shape == (2, Rr, Rc) and not (np.abs(cm[0] - er).max() <= 2e-3 and np.abs(cm[1] - ec).max() <= 2e-3):
+        swapped = np.abs(cm[0] - ec).max() <= 2e-3 and np.abs(cm[1] - er).max() <= 2e-3
+        flags.append("row-col-swapped" if swapped else "wrong-com")
+    if not np.array_equal(a_in, arr):
+        only_mask = mask is not None and np.allclose(a_in, arr * mask)
+        flags.append("intensities-multiplied-by-mask-in-place" if only_mask else "intensities-modified")
+    if len(flags) < len(problems):
+        flags.append("other")
+    res["klass"] = "+".join(flags) or "none"
+    return res
+
+
+def fam_sic(vectorized):
+    def fam(tier="quick", seed=0):
+        shapes = [(2, 3, 4, 6), (3, 2, 5, 4), (1, 1, 3, 5)] + ([(4, 3, 7, 5)] if tier == "thorough" else [])
+        for sh in shapes:
+            for mask in ("none", "ones", "half", "random"):
+                for fit in ("none", "no_shift", "constant", "plane"):
+                    if fit == "plane" and sh[0] * sh[1] < 4:
+                        continue
+                    yield dict(shape=list(sh), mask=mask, fit_function=fit, vectorized=vectorized, seed=seed + sh[2])
+    return fam
+
+
+@_guard
+def rt_getcom(inp):
+    from quantem.diffractive_imaging.ptycho_utils import get_com_2d
+
+    shape = tuple(inp["shape"])
+    arr = _data(shape, inp["seed"])
+    x = torch.tensor(arr) if inp["lib"] == "torch" else arr.copy()
+    got = get_com_2d(x)
+    got = np.asarray(got.numpy() if inp["lib"] == "torch" else got, dtype=np.float64)
+    er, ec = _com64(arr)
+    exp = np.stack([er, ec], -1)
+    problems = []
+    if got.shape != exp.shape:
+        problems.append(f"result shape {got.shape} != {exp.shape}")
+    elif not np.abs(got - exp).max() <= 1e-6:
+        problems.append(f"max |com - (sum I*row/sum I, sum I*col/sum I)| = {np.abs(got - exp).max():.4f}")
+    if inp["lib"] == "numpy" and not np.array_equal(x, arr):
+        problems.append("input modified")
+    res = _res(problems, "com[..., 0] = sum I*row / sum I, com[..., 1] = sum I*col / sum I along the last two axes")
+    res["klass"] = f"{len(shape)}-D input: " + ("wrong values" if problems else "ok")
+    return res
+
+
+def fam_getcom(tier="quick", seed=0):
+    for lib in ("numpy", "torch"):
+        for sh in [(1, 3, 4), (2, 5, 3), (6, 4, 7), (3, 2, 2)]:
+            yield dict(shape=list(sh), lib=lib, seed=seed + sh[0])
+
+
+def fam_getcom_ranks(tier="quick", seed=0):
+    for lib in ("numpy", "torch"):
+        for sh in [(3, 4), (3, 2, 3, 4), (2, 5, 3, 4), (2, 1, 3, 4), (4, 2, 5, 3)]:
+            yield dict(shape=list(sh), lib=lib, seed=seed + len(sh))
+
+
+def _surface(kind, shape, seed):
+    rng = np.random.default_rng(seed)
+    r, c = np.indices(shape).astype(np.float64)
+    if kind == "constant":
+        return np.full(shape, rng.uniform(2, 9)), np.full(shape, rng.uniform(2, 9))
+    if kind == "plane":
+        f = lambda: rng.uniform(-0.4, 0.4) * r + rng.uniform(-0.4, 0.4) * c + rng.uniform(3, 8)
+        return f(), f()
+    f = lambda: (rng.uniform(3, 8) + rng.uniform(-0.3, 0.3) * r + rng.uniform(-0.3, 0.3) * c + rng.uniform(-0.05, 0.05) * r * r
+                 + rng.uniform(-0.05, 0.05) * c * c + rng.uniform(-0.05, 0.05) * r * c)
+    return f(), f()
+
+
+@_guard
+def rt_fit_origin(inp):
+    from quantem.diffractive_imaging.ptycho_utils import fit_origin
+
+    shape = tuple(inp["shape"])
+    pr, pc = _surface(inp["surface"], shape, inp["seed"])
+    mk = inp["mask"]
+    rng = np.random.default_rng(inp["seed"] + 3)
+    mask = None if mk == "none" else np.ones(shape, bool) if mk == "all" else (rng.random(shape) > 0.25)
+    if mask is not None and mk == "partial":
+        mask.flat[0] = False
+        mask.flat[1:8] = True
+    a, b = pr.copy(), pc.copy()
+    fr, fc, rr, rc = fit_origin((a, b), mask=None if mask is None else mask.copy(), fit_function=inp["fit_function"])
+    problems = []
+    tol = 1e-6
+    if np.shape(fr) != shape or np.shape(fc) != shape:
+        problems.append(f"fit shapes {np.shape(fr)}, {np.shape(fc)} != {shape}")
+    else:
+        d = max(np.abs(fr - pr).max(), np.abs(fc - pc).max())
+        if not d <= tol:
+            problems.append(f"fit deviates from the exact {inp['surface']} surface by {d:.3g}")
+        if not (np.abs(rr).max() <= tol and np.abs(rc).max() <= tol):
+            problems.append(f"residuals not zero ({max(np.abs(rr).max(), np.abs(rc).max()):.3g})")
+    if not (np.array_equal(a, pr) and np.array_equal(b, pc)):
+        problems.append("input data modified")
+    return _res(problems, "fitting a surface of the fitted family to origins lying exactly on it returns that surface (zero residual)")
+
+
+def _fit_class(inp, res):
+    if inp["mask"] == "none" and inp["fit_function"] != "constant":
+        return "mask=None"
+    if inp["mask"] == "partial" and inp["fit_function"] != "constant":
+        return "mask-with-excluded-positions"
+    return "other"
+
+
+def fam_fit_origin(tier="quick", seed=0):
+    for sh in [(4, 5), (6, 3)] + ([(7, 8)] if tier == "thorough" else []):
+        for mask in ("all", "none", "partial"):
+            for surf, ff in (("constant", "constant"), ("constant", "plane"), ("plane", "plane"), ("plane", "parabola"), ("parabola", "parabola")):
+                yield dict(shape=list(sh), surface=surf, fit_function=ff, mask=mask, seed=seed + sh[0])
+
+
+def fam_fit_origin_constant():
+    for sh in [(1, 1), (4, 5), (6, 3)]:
+        for mask in ("all", "none", "partial"):
+            yield dict(shape=list(sh), surface="constant", fit_function="constant", mask=mask, seed=sh[0])
+
+
+@_guard
+def rt_fit_background(inp):
+    shape = tuple(inp["shape"])
+    arr = _data(shape, inp["seed"]).astype(np.float32)
+    m = _origin_model(arr)
+    pr, pc = _surface(inp["surface"], shape[:2], inp["seed"])
+    meas = torch.tensor(np.stack([pr.ravel(), pc.ravel()], -1), dtype=torch.float32)
+    m.origin_measured = meas
+    pos = None
+    if inp.get("positions"):
+        r, c = np.indices(shape[:2])
+        pos = torch.tensor(np.stack([r.ravel(), c.ravel()], -1), dtype=torch.float32)
+    ret = m.fit_origin_background(probe_positions=pos, fit_method=inp["fit_method"])
+    got = m.origin_fitted.numpy().astype(np.float64)
+    exp = meas.numpy().astype(np.float64)
+    problems = []
+    if ret is not m:
+        problems.append("does not return self")
+    if got.shape != exp.shape:
+        problems.append(f"origin_fitted shape {got.shape} != {exp.shape}")
+    elif not np.abs(got - exp).max() <= 2e-3:
+        problems.append(f"fit deviates from the exact {inp['surface']} surface by {np.abs(got - exp).max():.3g}")
+    if not torch.equal(m.origin_measured, meas):
+        problems.append("measured origins modified")
+    return _res(problems, "fitting a plane / constant to origins lying exactly on such a surface returns that surface")
+
+
+def fam_fit_background(tier="quick", seed=0):
+    for sh in [(3, 4, 2, 2), (5, 2, 3, 2), (4, 4, 2, 3)]:
+        for positions in (False, True):
+            for surf, fm in (("constant", "constant"), ("plane", "plane"), ("constant", "plane")):
+                yield dict(shape=list(sh), surface=surf, fit_method=fm, positions=positions, seed=seed + sh[0] + (7 if surf == "constant" else 0))
+
+
+@_guard
+def rt_shift(inp):
+    shape = tuple(inp["shape"])
+    H, W = shape[-2:]
+    arr = _data(shape, inp["seed"]).astype(np.float32)
+    m = _origin_model(arr)
+    n = int(np.prod(shape[:-2]))
+    rng = np.random.default_rng(inp["seed"] + 11)
+    coord = tuple(inp.get("coordinate", (0, 0)))
+    if inp.get("per_pattern", True):
+        org = np.stack([rng.integers(-H, 2 * H, size=n), rng.integers(-W, 2 * W, size=n)], -1)
+    else:
+        org = np.array([[int(rng.integers(0, H)), int(rng.integers(0, W))]])
+    m.origin_fitted = torch.tensor(org, dtype=torch.float32)
+    before = m.tensor.clone()
+    ret = m.shift_origin_to(origin_coordinate=coord, max_batch_size=inp.get("max_batch_size"), mode=inp.get("mode", "bilinear"))
+    got = m.shifted_tensor.numpy().astype(np.float64).reshape((n, H, W))
+    src = arr.astype(np.float64).reshape((n, H, W))
+    orgf = np.broadcast_to(org, (n, 2))
+    problems = []
+    if ret is not m:
+        problems.append("does not return self")
+    if tuple(m.shifted_tensor.shape) != shape:
+        problems.append(f"shifted_tensor shape {tuple(m.shifted_tensor.shape)} != {shape}")
+    for p in range(n):
+        sy, sx = int(orgf[p, 0] - coord[0]), int(orgf[p, 1] - coord[1])
+        exp = np.roll(src[p], (-sy, -sx), axis=(0, 1))
+        d = np.abs(got[p] - exp).max()
+        if not d <= 1e-5 * max(1.0, np.abs(src[p]).max()):
+            problems.append(f"pattern {p}: shift ({sy},{sx}) is not the circular roll (max diff {d:.3g})")
+            break
+    if not bool((m.tensor == before).all()):
+        problems.append("input tensor was modified")
+    return _res(problems, "out[p][y,x] = in[p][(y+s_row) mod H, (x+s_col) mod W] with s = origin - coordinate (integer): the circular roll by -s")
+
+
+def fam_shift(tier="quick", seed=0):
+    for sh in [(2, 3, 4, 5), (3, 2, 5, 3), (4, 3, 6), (1, 2, 2, 2)] + ([(3, 4, 7, 6)] if tier == "thorough" else []):
+        n = int(np.prod(sh[:-2]))
+        for b in (None, 1, 2, n):
+            for mode in ("bilinear", "nearest"):
+                yield dict(shape=list(sh), max_batch_size=b, mode=mode, per_pattern=True, coordinate=[0, 0], seed=seed + n)
+        yield dict(shape=list(sh), max_batch_size=None, mode="bilinear", per_pattern=False, coordinate=[1, 2], seed=seed + n + 1)
+
+
+@_guard
+def rt_models_agree(inp):
+    """origin model (torch, batched) vs dataset model (numpy, vectorised and looped) on the same 4-D data."""
+    shape = tuple(inp["shape"])
+    arr = _data(shape, inp["seed"]).astype(np.float32)
+    m = _origin_model(arr)
+    m.calculate_origin(max_batch_size=inp.get("max_batch_size"))
+    a = m.origin_measured.numpy().astype(np.float64).reshape(shape[:2] + (2,))
+    problems = []
+    for vec in (True, False):
+        o = _raster(shape[:2], shape[2:])
+        o._set_intensities_com(arr.copy(), fit_function="none", vectorized_calculation=vec)
+        cm = np.asarray(o.com_measured, dtype=np.float64)
+        d = max(np.abs(cm[0] - a[..., 0]).max(), np.abs(cm[1] - a[..., 1]).max())
+        if not d <= 2e-3:
+            problems.append(f"{'vectorised' if vec else 'looped'} dataset-model CoM differs from the origin model by {d:.3g}")
+    return _res(problems, "origin model and dataset model (both code paths) agree on the measured origins")
+
+
+def _klass_res(inp, res):
+    return res.get("klass", "other")
+
+
+def _klass_agree(inp, res):
+    return "looped" if "looped" in (res.get("observed") or "") and "vectorised" not in (res.get("observed") or "") else "other"
+
+
+def fam_models_agree(tier="quick", seed=0):
+    for sh in [(2, 3, 4, 6), (3, 3, 5, 4)]:
+        for b in (None, 2):
+            yield dict(shape=list(sh), max_batch_size=b, seed=seed + sh[2])
+
+
+def rt_batcher(inp):
+    from quantem.diffractive_imaging.ptycho_utils import SimpleBatcher
+
+    n, B = inp["num"], inp["batch_size"]
+    b = SimpleBatcher(n, batch_size=B, shuffle=False)
+    batches = [list(map(int, x)) for x in b]
+    eff = B if B is not None else n
+    problems = []
+    if [i for x in batches for i in x] != list(range(n)):
+        problems.append(f"batches {batches[:4]} do not enumerate range({n}) in order")
+    if any(len(x) != eff for x in batches[:-1]) or (batches and not 1 <= len(batches[-1]) <= eff):
+        problems.append(f"batch sizes {[len(x) for x in batches]}")
+    return _res(problems, "unshuffled batches are consecutive slices of range(num) of length batch_size (last one shorter)")
+
+
+def fam_batcher():
+    for n in (1, 2, 5, 6, 9):
+        for B in (None, 1, 2, 3, n, n + 1):
+            yield dict(num=n, batch_size=B)
+
+
+def rt_setter(inp):
+    arr = _data((2, 3, 2, 2), 0).astype(np.float32)
+    m = _origin_model(arr)
+    v = torch.tensor(np.arange(2 * inp["rows"], dtype=np.float32).reshape((inp["rows"], 2))) if inp["rows"] else torch.tensor([1.5, 2.5])
+    exp_ok = inp["rows"] in (0, 1, 6)
+    try:
+        setattr(m, inp["field"], v)
+    except RuntimeError as e:
+        return _res([] if not exp_ok else [f"raised {e}"], "RuntimeError iff rows not in (1, num_dps)")
+    got = getattr(m, inp["field"]).numpy()
+    want = np.broadcast_to(v.numpy().reshape((-1, 2)), (6, 2))
+    return _res([] if exp_ok and np.array_equal(got, want) else [f"got {got.tolist()}"], "value.view(-1,2) broadcast to (num_dps, 2)")
+
+
+def fam_setter():
+    for field in ("origin_measured", "origin_fitted"):
+        for rows in (0, 1, 6, 3):
+            yield dict(field=field, rows=rows)
+
+
+def _clip(v, lo, hi, default):
+    return default if not isinstance(v, int) or isinstance(v, bool) else max(lo, min(hi, v))
+
+
+def _conc_shape(ev):
+    """dataset shape of the counter-model (extents clipped to keep the replay small; contents are the asymmetric test patterns)"""
+    H, W = _clip(ev("H"), 2, 7, 4), _clip(ev("W"), 2, 7, 5)
+    if H == W:
+        W += 1  # row/column mix-ups only show on non-square detectors
+    if ev("dataset_is_4d", True):
+        return [_clip(ev("Rx"), 1, 4, 2), _clip(ev("Ry"), 1, 4, 3), H, W]
+    return [_clip(ev("N"), 1, 9, 5), H, W]
+
+
+def conc_calc(ev):
+    sh = _conc_shape(ev)
+    b = None if ev("max_batch_size_is_none", False) else _clip(ev("max_batch_size"), 1, 12, 2)
+    return dict(shape=sh, max_batch_size=b, seed=1)
+
+
+def conc_shift(ev):
+    sh = _conc_shape(ev)
+    b = None if ev("max_batch_size_is_none", False) else _clip(ev("max_batch_size"), 1, 12, 2)
+    return dict(shape=sh, max_batch_size=b, mode="bilinear" if ev("mode_is_bilinear", True) else "nearest", per_pattern=True, coordinate=[0, 0], seed=2)
+
+
+def conc_sic(vectorized):
+    def conc(ev):
+        Qr, Qc = _clip(ev("Qr"), 2, 7, 4), _clip(ev("Qc"), 2, 7, 6)
+        if Qr == Qc:
+            Qc += 1
+        fit = "none"
+        for f in ("none", "no_shift", "constant", "plane"):
+            if ev(f"fit_function_is_{f}", False):
+                fit = f
+        return dict(shape=[_clip(ev("Rr"), 1, 4, 2), _clip(ev("Rc"), 1, 4, 3), Qr, Qc], mask="random" if ev("dp_mask_given", False) else "none",
+                    fit_function=fit, vectorized=vectorized, seed=3)
+    return conc
+
+
+def conc_getcom(ev):
+    H, W = _clip(ev("H"), 2, 7, 3), _clip(ev("W"), 2, 7, 4)
+    return dict(shape=[_clip(ev("B"), 1, 6, 2), H, W + (H == W)], lib="torch" if ev("input_is_torch", False) else "numpy", seed=4)
+
+
+C_CALC.concretize, C_SHIFT.concretize, C_GETCOM.concretize = conc_calc, conc_shift, conc_getcom
+C_SIC_VEC.concretize, C_SIC_LOOP.concretize = conc_sic(True), conc_sic(False)
+
+for _c, _rt, _fam in (
+    (C_SB_INIT, rt_batcher, fam_batcher), (C_SB_ITER, rt_batcher, fam_batcher),
+    (C_SET_MEASURED, rt_setter, fam_setter), (C_SET_FITTED, rt_setter, fam_setter),
+    (C_CALC, rt_calc, fam_calc), (C_FITBG, rt_fit_background, fam_fit_background), (C_SHIFT, rt_shift, fam_shift),
+    (C_GETCOM, rt_getcom, fam_getcom), (C_FITORIGIN, rt_fit_origin, fam_fit_origin_constant),
+    (C_SIC_VEC, rt_sic, fam_sic(True)), (C_SIC_LOOP, rt_sic, fam_sic(False)),
+):
+    _c.rt, _c.rt_family = _rt, _fam
+
+BOUNDED = [
+    Bounded.from_rt("calculate_origin vs float64 oracle, every batch size", rt_calc, fam_calc, "5 dataset shapes (3-D and 4-D, non-square), batch sizes None,1,2,3,n-1,n,n+2"),
+    Bounded.from_rt("_set_intensities_com vectorised path vs float64 oracle", rt_sic, fam_sic(True), "3 shapes x 4 masks x 4 fit functions", klass=_klass_res),
+    Bounded.from_rt("_set_intensities_com looped path vs float64 oracle", rt_sic, fam_sic(False), "3 shapes x 4 masks x 4 fit functions", klass=_klass_res),
+    Bounded.from_rt("origin model vs dataset model on the same data", rt_models_agree, fam_models_agree, "2 shapes x 2 batch sizes, both code paths", klass=_klass_agree),
+    Bounded.from_rt("get_com_2d on stacks of patterns (B,H,W)", rt_getcom, fam_getcom, "4 shapes, numpy and torch", klass=_klass_res),
+    Bounded.from_rt("get_com_2d on other ranks (single pattern, 4-D dataset)", rt_getcom, fam_getcom_ranks, "2-D and 4-D inputs, numpy and torch", klass=_klass_res),
+    Bounded.from_rt("PLANE FITS (stand-in for proof): fit_origin on exact constant / plane / parabola surfaces", rt_fit_origin, fam_fit_origin,
+                    "2 shapes x {all-True mask, mask=None, partial mask} x 5 surface/function pairs (curve_fit is outside the deductive reach)", klass=_fit_class),
+    Bounded.from_rt("PLANE FITS (stand-in for proof): fit_origin_background PCA plane / constant on exact surfaces", rt_fit_background, fam_fit_background,
+                    "3 scan shapes x {inferred, explicit positions} x {constant, plane} (torch.linalg.eigh is outside the deductive reach)"),
+    Bounded.from_rt("shift_origin_to with integer origins vs numpy.roll", rt_shift, fam_shift, "4 shapes x batch sizes None,1,2,n x bilinear/nearest, origins in [-H,2H)x[-W,2W), one shared origin with non-zero target"),
+]
+
+TRUSTED = [
+    "pyvc/lib/c18_models.py: numpy/torch index-function semantics of arange, meshgrid(ij/xy), zeros, ones_like, empty, empty_like, as_tensor, tensor, stack, "
+    "elementwise broadcasting, basic slicing / None / Ellipsis, isfinite (A1), sum / mean over axes",
+    "row-major view / reshape that merges or splits leading axes (pattern p of a 4-D dataset is T[p div Ry, p mod Ry]); torch expand",
+    "advanced-index gather a[idx] and scatter a[idx] = v / a[idx, c] = v for an injective index array (ghost inverse), with in-range obligations",
+    "floored remainder a % b = a - b*floor(a/b) on reals; for integer-valued operands it is the integer mod (equivalent reformulation)",
+    "torch.nn.functional.grid_sample(align_corners=True, mode bilinear|nearest): at un-normalised coordinates ((g+1)/2)*(size-1) that are integers inside the "
+    "image the result is that pixel; anywhere else the result is unspecified (uninterpreted)",
+    "itertools.product(range(a), range(b)) enumerates (k div b, k mod b) for k < a*b; tqdm(iterable) iterates its argument",
+    "finite sums: congruence only (equal bounds and equal summands => equal sums; first-order encoding F_shape(n, parameters)); "
+    "sum of a constant summand = max(n,0)*c; NO linearity / reordering facts are used",
+    "torch.roll(x, s, d)[i] = x[(i - s) mod n] (pyvc/lib/torch_.py), used only in the roll lemma",
+    "T2: row-major numbering q = r*cols + c is a bijection between scan positions and [0, rows*cols) (its arithmetic half is proved as a lemma)",
+    "pyvc engine (AST interpreter, loop rule with arbitrary-iteration + invariant, path exploration), z3, cvc5",
+]
+ASSUMPTIONS = [
+    "A1 floats are reals: float32/float64 rounding, inf/nan from empty patterns are ignored ('=' means equal over R; tolerances only in bounded checks)",
+    "A2 fixed-width integers are mathematical",
+    "validators.validate_tensor / validate_array are used through ASSUMED contracts (value- and shape-preserving dtype cast; ValueError on a "
+    "requested-shape mismatch; a pair of arrays is stacked) - they are NOT verified in C18",
+    "generic-instance statements: the looped-path CoM post, the roll post and their loop invariants are proved at ONE arbitrary scan position / pattern / pixel "
+    "(free symbols constrained only to be in range), which is the universally quantified statement",
+    "shift_origin_to is specified for H, W >= 2 and for patterns whose (fitted origin - target coordinate) is integer-valued; other shifts are bilinear "
+    "interpolation and outside the claim",
+    "plane / parabola fits (scipy curve_fit, torch.linalg.eigh PCA) are NOT proved: bounded stand-ins on exact surfaces only",
+    "get_com_2d is proved for a stack of patterns (B,H,W) only (corner_centered=False); other ranks are covered by a bounded check (and fail, see findings)",
+    "SimpleBatcher is specified only in the configuration the origin model uses (shuffle=False, no validation split); the general batcher is C09",
+    "the detector mask of _set_intensities_com is any real array of detector shape; dtype conversion of the mask (np.asarray(..., float32)) is the identity under A1",
+]
+EXPLANATION = ("VCs generated from the real source of calculate_origin / origin setters / fit_origin_background / shift_origin_to / _set_intensities_com "
+               "(vectorised and looped) / get_com_2d / fit_origin / SimpleBatcher.__init__/__iter__ over index-function arrays with first-order "
+               "Sigma-terms; every implementation's result is the term (Sum I*row / Sum I, Sum I*col / Sum I) of the property statement")
